@@ -29,6 +29,9 @@
                      waker, the earlier waiter is never woken (ghost set repl)
      ForeignCancel   the operation is registered with the first poller's cancel token; when that token is cancelled
                      the ECANCELED result stays in the slot and is handed to whoever polls next (ghost dev)
+     RdHupWrite      io_uring only: PollAdd always listens for EPOLLRDHUP (IO_POLL_UNMASK), so the PollOnce of the
+                     WRITE direction completes as soon as the peer has shut down its write half although the send
+                     buffer is full; write_ready() then reports readiness that never existed (ghost hupw, dev)
 
    Eager = TRUE is the generator variant (Gen_FdReady): every environment step is followed by a full driver poll
    (DrvPoll) before anything else happens, and steps whose outcome depends on kernel timing are excluded.
@@ -44,7 +47,8 @@ CONSTANTS RW,        \* waiter slots of the read direction
           AllowShut, \* the peer may shut down its write half
           Eager,     \* generator variant
           Strict,    \* known deviations count as errors
-          Mut        \* "none" | "cross" | "nowake" | "norearm"
+          Mut,       \* "none" | "cross" | "nowake" | "norearm"
+          Driver     \* "iour" | "poll" | "any" (= what both drivers agree on; generator only)
 
 W == RW \cup WW
 NoW == "-"
@@ -56,12 +60,14 @@ VARIABLES pw, rd, shut, wfull, fills,         \* kernel / peer
           slot, opwk, optok, creq, seen,      \* PollFd slot + the PollOnce in the driver, per direction
           fst, fkind, ftok, tokc, woken,      \* waiters: future state, kind, token mode, token cancelled, waker fired
           repl,                               \* ghost: waiters whose registered waker was overwritten (WakerReplaced)
-          backed,                             \* ghost: direction was ready at some moment since its last report
+          hupw,                               \* ghost: the result in the write slot is due to EPOLLRDHUP only
+          backed,                             \* ghost per direction: "idle" nobody has waited since the last report,
+                                              \* "no"/"yes" the direction was (not) ready since somebody started to wait
           err, dev,                           \* ghost: property violations / known deviations seen
           needPoll                            \* Eager only: a driver poll must come next
 
 vars == <<pw, rd, shut, wfull, fills, slot, opwk, optok, creq, seen, fst, fkind, ftok, tokc, woken, repl,
-          backed, err, dev, needPoll>>
+          hupw, backed, err, dev, needPoll>>
 
 K0 == CHOOSE k \in Kinds : TRUE
 T0 == CHOOSE t \in TokModes : TRUE
@@ -75,7 +81,7 @@ TypeOK ==
   /\ creq \in [Dirs -> BOOLEAN] /\ seen \in [Dirs -> BOOLEAN]
   /\ fst \in [W -> {"none", "new", "pend"}] /\ fkind \in [W -> Kinds] /\ ftok \in [W -> TokModes]
   /\ tokc \in [W -> BOOLEAN] /\ woken \in [W -> BOOLEAN] /\ repl \subseteq W
-  /\ backed \in [Dirs -> BOOLEAN] /\ needPoll \in BOOLEAN
+  /\ backed \in [Dirs -> {"idle", "no", "yes"}] /\ hupw \in BOOLEAN /\ needPoll \in BOOLEAN
 
 Init ==
   /\ pw = 0 /\ rd = 0 /\ shut = FALSE /\ wfull = FALSE /\ fills = 0
@@ -84,7 +90,7 @@ Init ==
   /\ fst = [w \in W |-> "none"]
   /\ fkind = [w \in W |-> K0] /\ ftok = [w \in W |-> T0]
   /\ tokc = [w \in W |-> FALSE] /\ woken = [w \in W |-> FALSE] /\ repl = {}
-  /\ backed = [d \in Dirs |-> Ready(d)] /\ err = {} /\ dev = {} /\ needPoll = FALSE
+  /\ backed = [d \in Dirs |-> "idle"] /\ hupw = FALSE /\ err = {} /\ dev = {} /\ needPoll = FALSE
 
 Guard == ~(Eager /\ needPoll)
 
@@ -120,7 +126,7 @@ Start(w, k, t) ==
   /\ tokc' = [tokc EXCEPT ![w] = FALSE] /\ woken' = [woken EXCEPT ![w] = FALSE]
   \* the previous token of this slot is forgotten by the user: it can no longer be cancelled
   /\ optok' = [d \in Dirs |-> IF optok[d] = w THEN NoW ELSE optok[d]]
-  /\ UNCHANGED <<pw, rd, shut, wfull, fills, slot, opwk, creq, seen, repl, backed, err, dev, needPoll>>
+  /\ UNCHANGED <<pw, rd, shut, wfull, fills, slot, opwk, creq, seen, repl, hupw, backed, err, dev, needPoll>>
 
 PollW(w) ==
   /\ fst[w] \in {"new", "pend"} /\ Guard
@@ -133,8 +139,10 @@ PollW(w) ==
          done == res # "pending"
          newcreq == ftok[w] # "no" /\ tokc[w]        \* register() on a cancelled token cancels at once
          foreign == res = "ecanceled" /\ ~(ftok[w] # "no" /\ tokc[w])
+         thin == res = "ok" /\ backed[d] # "yes"
+         rdhup == thin /\ d = "w" /\ hupw
      IN
-     /\ Eager => ~(arm /\ newcreq /\ Ready(d))       \* outcome depends on the driver: not replayed
+     /\ Eager => ~(arm /\ newcreq /\ (Ready(d) \/ (d = "w" /\ Driver = "iour" /\ shut)))   \* driver dependent: not replayed
      /\ slot' = [slot EXCEPT ![d] = IF arm THEN "armed" ELSE IF take THEN "none" ELSE @]
      /\ opwk' = [x \in Dirs |-> IF x = d /\ (arm \/ share) THEN w
                                 ELSE IF done /\ opwk[x] = w THEN NoW ELSE opwk[x]]
@@ -145,9 +153,11 @@ PollW(w) ==
      /\ rd' = IF res = "data" THEN rd + 1 ELSE rd
      /\ fst' = [fst EXCEPT ![w] = IF done THEN "none" ELSE "pend"]
      /\ woken' = [woken EXCEPT ![w] = FALSE]
-     /\ backed' = [backed EXCEPT ![d] = IF res = "ok" THEN Ready(d) ELSE @]
-     /\ dev' = IF foreign THEN dev \cup {"foreign_cancel"} ELSE dev
-     /\ err' = err \cup (IF res = "ok" /\ ~backed[d] THEN {"thin_air"} ELSE {})
+     /\ backed' = [backed EXCEPT ![d] = IF res = "ok" THEN "idle"
+                                       ELSE IF reach /\ @ = "idle" THEN (IF Ready(d) THEN "yes" ELSE "no") ELSE @]
+     /\ hupw' = IF d = "w" /\ (take \/ arm) THEN FALSE ELSE hupw
+     /\ dev' = dev \cup (IF foreign THEN {"foreign_cancel"} ELSE {}) \cup (IF rdhup THEN {"rdhup_write"} ELSE {})
+     /\ err' = err \cup (IF thin /\ (~rdhup \/ Strict) THEN {"thin_air"} ELSE {})
                    \cup (IF foreign /\ Strict THEN {"foreign_cancel"} ELSE {})
      /\ needPoll' = (needPoll \/ (Eager /\ arm /\ newcreq))
   /\ NormTok
@@ -161,7 +171,7 @@ DropW(w) ==
   /\ opwk' = [d \in Dirs |-> IF opwk[d] = w THEN NoW ELSE opwk[d]]
   /\ woken' = [woken EXCEPT ![w] = FALSE]
   /\ repl' = repl \ {w}
-  /\ UNCHANGED <<pw, rd, shut, wfull, fills, slot, optok, creq, seen, backed, err, dev, needPoll>>
+  /\ UNCHANGED <<pw, rd, shut, wfull, fills, slot, optok, creq, seen, hupw, backed, err, dev, needPoll>>
   /\ NormTok
 
 \* CancelToken::cancel of the waiter's token (the future may already be gone): notify_all wakes a fail-fast
@@ -170,38 +180,38 @@ CancelTok(w) ==
   /\ ftok[w] # "no" /\ ~tokc[w] /\ Guard
   /\ (fst[w] # "none" \/ \E d \in Dirs : optok[d] = w)
   /\ LET hit(d) == optok[d] = w /\ slot[d] = "armed" IN
-     /\ Eager => \A d \in Dirs : hit(d) => ~Ready(d)
+     /\ Eager => \A d \in Dirs : hit(d) => ~(Ready(d) \/ (d = "w" /\ Driver = "iour" /\ shut))
      /\ tokc' = [tokc EXCEPT ![w] = TRUE]
      /\ creq' = [d \in Dirs |-> creq[d] \/ hit(d)]
      /\ woken' = [woken EXCEPT ![w] = @ \/ (ftok[w] = "fast" /\ fst[w] = "pend")]
      /\ needPoll' = (needPoll \/ (Eager /\ \E d \in Dirs : hit(d)))
-  /\ UNCHANGED <<pw, rd, shut, wfull, fills, slot, opwk, optok, seen, fst, fkind, ftok, repl, backed, err, dev>>
+  /\ UNCHANGED <<pw, rd, shut, wfull, fills, slot, opwk, optok, seen, fst, fkind, ftok, repl, hupw, backed, err, dev>>
 
 -----------------------------------------------------------------------------
 (* Environment: the peer and the send buffer. A step that makes a direction ready marks it for the ghosts. *)
 MarkReady(d) ==
-  /\ backed' = [backed EXCEPT ![d] = TRUE]
+  /\ backed' = [backed EXCEPT ![d] = IF @ = "no" THEN "yes" ELSE @]
   /\ seen' = [seen EXCEPT ![d] = @ \/ slot[d] = "armed"]
 
 PeerWrite ==
   /\ Guard /\ pw < MaxPW /\ ~shut
   /\ pw' = pw + 1 /\ MarkReady("r") /\ needPoll' = Eager
-  /\ UNCHANGED <<rd, shut, wfull, fills, slot, opwk, optok, creq, fst, fkind, ftok, tokc, woken, repl, err, dev>>
+  /\ UNCHANGED <<rd, shut, wfull, fills, slot, opwk, optok, creq, fst, fkind, ftok, tokc, woken, repl, hupw, err, dev>>
 
 PeerShut ==
-  /\ Guard /\ AllowShut /\ ~shut
+  /\ Guard /\ AllowShut /\ ~shut /\ (Driver = "any" => ~wfull)
   /\ shut' = TRUE /\ MarkReady("r") /\ needPoll' = Eager
-  /\ UNCHANGED <<pw, rd, wfull, fills, slot, opwk, optok, creq, fst, fkind, ftok, tokc, woken, repl, err, dev>>
+  /\ UNCHANGED <<pw, rd, wfull, fills, slot, opwk, optok, creq, fst, fkind, ftok, tokc, woken, repl, hupw, err, dev>>
 
 Fill ==
-  /\ Guard /\ ~wfull /\ fills < MaxFill
+  /\ Guard /\ ~wfull /\ fills < MaxFill /\ (Driver = "any" => ~shut)
   /\ wfull' = TRUE /\ fills' = fills + 1 /\ needPoll' = Eager
-  /\ UNCHANGED <<pw, rd, shut, slot, opwk, optok, creq, seen, fst, fkind, ftok, tokc, woken, repl, backed, err, dev>>
+  /\ UNCHANGED <<pw, rd, shut, slot, opwk, optok, creq, seen, fst, fkind, ftok, tokc, woken, repl, hupw, backed, err, dev>>
 
 Drain ==
   /\ Guard /\ wfull
   /\ wfull' = FALSE /\ MarkReady("w") /\ needPoll' = Eager
-  /\ UNCHANGED <<pw, rd, shut, fills, slot, opwk, optok, creq, fst, fkind, ftok, tokc, woken, repl, err, dev>>
+  /\ UNCHANGED <<pw, rd, shut, fills, slot, opwk, optok, creq, fst, fkind, ftok, tokc, woken, repl, hupw, err, dev>>
 
 -----------------------------------------------------------------------------
 (* Driver: Proactor::poll delivers the completion of a PollOnce. The operation completes with Ok when the kernel
@@ -209,7 +219,9 @@ Drain ==
    readiness may or may not be reported, depending on driver and timing), with ECANCELED when a cancel was requested.
    Entry::notify stores the result and wakes the one waker of the operation. *)
 RdyFor(d) == IF Mut = "cross" THEN Ready(Other(d)) ELSE Ready(d)
-CanOk(d) == slot[d] = "armed" /\ (RdyFor(d) \/ (~Eager /\ seen[d]))
+RdHup(d) == d = "w" /\ Driver = "iour" /\ shut                    \* RdHupWrite
+CanOk(d) == slot[d] = "armed" /\ (RdyFor(d) \/ RdHup(d) \/ (~Eager /\ seen[d]))
+HupOnly(d) == RdHup(d) /\ ~RdyFor(d) /\ ~seen[d]
 CanCancel(d) == slot[d] = "armed" /\ creq[d]
 
 \* checking variant: one completion at a time, both outcomes when both are possible
@@ -218,6 +230,7 @@ DrvComplete(d) ==
   /\ \E how \in {"ok", "cancelled"} :
        /\ (how = "ok" => CanOk(d)) /\ (how = "cancelled" => CanCancel(d))
        /\ slot' = [slot EXCEPT ![d] = how]
+       /\ hupw' = IF d = "w" THEN (how = "ok" /\ HupOnly(d)) ELSE hupw
   /\ creq' = [creq EXCEPT ![d] = FALSE] /\ seen' = [seen EXCEPT ![d] = FALSE]
   /\ optok' = [optok EXCEPT ![d] = NoW]
   /\ woken' = [w \in W |-> woken[w] \/ (opwk[d] = w /\ Mut # "nowake")]
@@ -228,10 +241,11 @@ DrvComplete(d) ==
 \* generator variant: one driver poll processes everything that is due, deterministically
 DrvPoll ==
   /\ Eager /\ (needPoll \/ \E d \in Dirs : CanOk(d) \/ CanCancel(d))
-  /\ LET how(d) == IF CanCancel(d) /\ ~RdyFor(d) THEN "cancelled" ELSE IF CanOk(d) THEN "ok" ELSE slot[d]
+  /\ LET how(d) == IF CanCancel(d) /\ ~RdyFor(d) /\ ~RdHup(d) THEN "cancelled" ELSE IF CanOk(d) THEN "ok" ELSE slot[d]
          fin(d) == slot[d] = "armed" /\ how(d) # "armed"
      IN
      /\ slot' = [d \in Dirs |-> how(d)]
+     /\ hupw' = IF fin("w") THEN (how("w") = "ok" /\ HupOnly("w")) ELSE hupw
      /\ creq' = [d \in Dirs |-> IF fin(d) THEN FALSE ELSE creq[d]]
      /\ seen' = [d \in Dirs |-> IF fin(d) THEN FALSE ELSE seen[d]]
      /\ optok' = [d \in Dirs |-> IF fin(d) THEN NoW ELSE optok[d]]
@@ -272,7 +286,7 @@ CoveredStrict == \A w \in W : Unwoken(w) => Covered(w)
 SlotSane == \A d \in Dirs : slot[d] # "armed" => (~creq[d] /\ ~seen[d] /\ optok[d] = NoW /\ opwk[d] = NoW)
 
 \* ready implies backed (the ghost is maintained correctly)
-BackedOK == \A d \in Dirs : Ready(d) => backed[d]
+BackedOK == \A d \in Dirs : Ready(d) => backed[d] # "no"
 
 \* liveness (FairSpec): a pending waiter of a ready direction is eventually woken (or the direction stops being
 \* ready, or the waiter is dropped); WokenModuloKnown excuses waiters whose waker was overwritten
